@@ -1,1 +1,2 @@
 pub mod tcp;
+pub mod ja4;
